@@ -56,6 +56,11 @@ type Modules struct {
 	Path []string
 	// pathMap is used to prevent adding dups in Path.
 	pathMap map[string]bool
+	// unrevisioned holds the modules and submodules that have no revision,
+	// keyed by kind and name.  Such a module is listed under its name in
+	// Modules or SubModules only as long as no revision of the same name
+	// is present, so those maps alone cannot tell whether one was added.
+	unrevisioned map[string]*Module
 }
 
 // NewModules returns a newly created and initialized Modules.
@@ -70,6 +75,7 @@ func NewModules() *Modules {
 		entryCache:      map[Node]*Entry{},
 		entryInProgress: map[Node]bool{},
 		pathMap:         map[string]bool{},
+		unrevisioned:    map[string]*Module{},
 	}
 	return ms
 }
@@ -174,13 +180,26 @@ func (ms *Modules) add(n Node) error {
 	fullName := mod.FullName()
 	mod.Modules = ms
 
+	if fullName == name {
+		// A module without a revision ranks below every revision of
+		// the same name: the name refers to it only as long as no
+		// revision is present.  Whether it is a duplicate must not
+		// depend on what else was added under that name, or when.
+		key := kind + " " + name
+		if o := ms.unrevisioned[key]; o != nil {
+			return fmt.Errorf("duplicate %s %s at %s and %s", kind, fullName, Source(o), Source(n))
+		}
+		ms.unrevisioned[key] = mod
+		if m[name] == nil {
+			m[name] = mod
+		}
+		return nil
+	}
+
 	if o := m[fullName]; o != nil {
 		return fmt.Errorf("duplicate %s %s at %s and %s", kind, fullName, Source(o), Source(n))
 	}
 	m[fullName] = mod
-	if fullName == name {
-		return nil
-	}
 
 	// Add us to the map if:
 	// name has not been added before
